@@ -673,7 +673,9 @@ def model_terms_rule(chk, src):
                 return ("basis", self._name, tuple(new) if isinstance(new, list) else new)
         basis = [BS("bE", ["e"], False), BS("bM", ["m1", "m2"], True)]
         loc = [Sym("L0", symbol="sL0", dofs=["e"], factor="fL0", qn_list="qL0"), Sym("L1", symbol="sL1", dofs=["e", "m1"], factor="fL1", qn_list="qL1")]
-        non = [Sym("N0", symbol="sN0", dofs=[(0, "e"), (1, "e")], factor="fN0", qn_list="qN0"), Sym("N1", symbol="sN1", dofs=[(1, "e"), (3, "m2")], factor="fN1", qn_list="qN1")]
+        # N2 is N0 written from the neighbouring cell: on a ring of two cells the images of N0 and N2 coincide term by term, and H = sum over cells still counts each of them
+        non = [Sym("N0", symbol="sN0", dofs=[(0, "e"), (1, "e")], factor="fN0", qn_list="qN0"), Sym("N1", symbol="sN1", dofs=[(1, "e"), (3, "m2")], factor="fN1", qn_list="qN1"),
+               Sym("N2", symbol="sN0", dofs=[(1, "e"), (0, "e")], factor="fN0", qn_list="qN0")]
         it = SymInterp(src, None, {"Op": lambda symbol, dofs, factor=None, qn=None: ("op", symbol, tuple(dofs), factor, qn),
                                    "super": lambda: Sym("super", __init__=lambda b_, h_, **k: got.update(basis=list(b_), ham=list(h_)))})
         it.builtins["isinstance"] = lambda x, t: isinstance(x, t) if isinstance(t, type) or (isinstance(t, tuple) and all(isinstance(y, type) for y in t)) else False
@@ -689,7 +691,7 @@ def model_terms_rule(chk, src):
                 want_h.append(("op", o.symbol, tuple((f"cell{(i + d[0]) % ncell}", d[1]) for d in o.dofs), o.factor, o.qn_list))
         ok = got.get("basis") == want_b and sorted(map(repr, got.get("ham", []))) == sorted(map(repr, want_h))
         chk.ob("model-terms", f"TI1DModel[ncell={ncell}]", ok, fi.where, {"basis": len(got.get("basis", [])), "terms": [repr(t)[:70] for t in got.get("ham", []) if t not in want_h][:3]},
-               {"basis": len(want_b), "terms": "every local term once per cell, every non-local term once per cell, cell index (i + offset) mod ncell"}, line=fi.node.lineno,
+               {"basis": len(want_b), "terms": "every local term once per cell, every non-local term once per cell (coinciding periodic images included), cell index (i + offset) mod ncell"}, line=fi.node.lineno,
                detail="a translationally invariant periodic model: a missing wrap-around, a skipped cell or a dropped factor / quantum number changes the Hamiltonian only at the boundary cells")
     # ---- nearest-neighbour coupling matrix
     fj = src.func(MODEL, "construct_j_matrix")
